@@ -138,6 +138,14 @@ def explore(check, unit, acc, seed=0):
         acc.cases += 1
         try:
             vs = check.run_case(case, acc)
+        except (MemoryError, OSError) as e:
+            # the environment gave out (no memory, no disk space, no file handles) outside the code under test
+            if any('/rxsci/' in fr.filename for fr in traceback.extract_tb(sys.exc_info()[2])):
+                vs = [{'signature': '%s|unexpected-exception|%s' % (check.ID, _exc_site()), 'size': _size(case),
+                       'detail': {'traceback': traceback.format_exc()[-3000:]}}]
+            else:
+                acc.harness_errors.append('environment failure while running a case: %r' % (e,))
+                continue
         except Exception:  # a crash while executing a case is a finding, not noise
             vs = [{
                 'signature': '%s|unexpected-exception|%s' % (check.ID, _exc_site()),
@@ -279,13 +287,19 @@ def run_check(check, tier, seed, workers=None, budget=None, out=sys.stdout):
         ctx = multiprocessing.get_context('fork')
         pool = ctx.Pool(workers, initializer=_worker_init)
         hang = False
+        worker_pids = sorted(p.pid for p in pool._pool)
         try:
             it = pool.imap_unordered(_run_unit, units, chunksize=1)
             while done_units < len(units):
                 try:
                     res = it.next(timeout=UNIT_TIMEOUT)
                 except multiprocessing.TimeoutError:
-                    hang = True
+                    if sorted(p.pid for p in pool._pool) != worker_pids or any(p.exitcode is not None for p in pool._pool):
+                        # a worker process died (killed by the system, out of memory ...): its unit is lost, which is not an
+                        # observation about the code under test
+                        agg.harness_errors.append('a worker process of the explorer died; the run is incomplete')
+                    else:
+                        hang = True
                     break
                 except StopIteration:
                     break
@@ -306,10 +320,14 @@ def run_check(check, tier, seed, workers=None, budget=None, out=sys.stdout):
                                    'detail': {'note': 'no unit completed within %d s' % UNIT_TIMEOUT}})
     wall = time.time() - t0
 
-    if agg.harness_errors:
+    if agg.harness_errors and not agg.violations:
         print('HARNESS-ERROR in %s (%d units): %s' % (check.ID, len(agg.harness_errors), agg.harness_errors[0]), file=out)
         write_evidence(check, tier, seed, agg, wall, exhaustive, len(units), done_units, 0, note='harness error')
         return 2
+    if agg.harness_errors:
+        # violations found by other units are still reported below; the run is not exhaustive
+        print('HARNESS-ERROR in %s (%d units): %s' % (check.ID, len(agg.harness_errors), agg.harness_errors[0]), file=out)
+        exhaustive = False
 
     # ---- violations: smallest per signature, double replay, known findings ----------
     by_sig = {}
@@ -455,7 +473,7 @@ def write_evidence(check, tier, seed, agg, wall, exhaustive, nunits, done_units,
         'violating_cases_total': int(agg.nviol),
     }
     path = os.path.join(evdir, '%s.json' % check.ID)
-    tmp = path + '.tmp'
+    tmp = '%s.tmp.%d' % (path, os.getpid())
     with open(tmp, 'w') as f:
         json.dump(ev, f, indent=1)
     os.replace(tmp, path)
